@@ -58,8 +58,13 @@ def _layout(x, layout):
 
 
 class Table(dict):
-    """driver table; .premade holds the model objects that were fitted while building it."""
+    """driver table; .premade holds the model objects that were fitted while building it, .expect optional
+    predicates on the result of an entry (name -> function returning an error message or None)."""
     premade = None
+
+    def __init__(self, *a, **k):
+        super().__init__(*a, **k)
+        self.expect = {}
 
 
 def entries(seed, premade=None):
@@ -293,6 +298,42 @@ def entries(seed, premade=None):
                                                                             distortion_weight=0.5), Pxx, Pnn)
     reg('get_mvdr_vector_souden[ref 1]', lambda args: bf.get_mvdr_vector_souden(args[0], args[1], ref_channel=1), Pxx, Pnn)
     reg('get_pca_vector[eigenvalue]', lambda args: bf.get_pca_vector(args[0], scaling='eigenvalue'), Pxx)
+    # real-dtype (symmetric, not bit-exactly so) noise PSDs and stacks of 64 bins with noise-free bins
+    Pnn_r = np.stack([A.hpd(seed, D, 10.0, 'c20nr', f, complex_=False).real for f in range(F)])
+    Pnn_r = Pnn_r + 1e-17 * np.triu(np.ones((D, D)), 1)          # asymmetric in the last bit
+    reg('get_mvdr_vector[real noise PSD]', lambda args: bf.get_mvdr_vector(args[0], args[1]), atf, Pnn_r)
+    reg('get_mvdr_vector_souden[real noise PSD]', lambda args: bf.get_mvdr_vector_souden(args[0], args[1], ref_channel=0),
+        Pxx, Pnn_r)
+    reg('get_wmwf_vector[real noise PSD]', lambda args: bf.get_wmwf_vector(args[0], args[1], reference_channel=0),
+        Pxx, Pnn_r)
+    reg('get_gev_vector[real noise PSD]', lambda args: bf.get_gev_vector(args[0], args[1]), Pxx, Pnn_r)
+    w64 = A.cnormal(r, (64, D))
+    Pnn64 = np.stack([A.hpd(seed, D, 10.0, 'c20n64', f) for f in range(64)])
+    Pnn64[[0, 17, 63]] = 0                                        # bins without any noise power
+    def ban_with_heap_traffic(args):
+        # the identical call repeated while other allocations of varying size, content and lifetime happen in
+        # between: every repetition has to be bit-identical (an output buffer that is not initialised shows
+        # left-over memory in the bins without noise power)
+        rr = np.random.RandomState(4321)
+        keep, outs = [], []
+        for rep in range(16):
+            outs.append(np.asarray(bf.blind_analytic_normalization(args[0], args[1])))
+            tmp = [np.full(64, rr.choice([1., 7.5, 1e300, -3.]) * (1 + 1j)) for _ in range(rr.randint(1, 6))]
+            if rr.rand() < 0.5:
+                keep.append(tmp.pop())
+            if len(keep) > 4:
+                del keep[rr.randint(len(keep))]
+            F2 = int(rr.choice([64, 65, 128, 32]))
+            a_ = rr.randn(F2, D, D) + 1j * rr.randn(F2, D, D)
+            bf.blind_analytic_normalization(rr.randn(F2, D) + 1j * rr.randn(F2, D), a_ @ a_.conj().swapaxes(-1, -2))
+            del tmp
+        return outs
+    reg('blind_analytic_normalization[zero bins, F=64]', ban_with_heap_traffic, w64, Pnn64)
+    E_.expect['blind_analytic_normalization[zero bins, F=64]'] = lambda outs: None if all(
+        o.tobytes() == outs[0].tobytes() for o in outs) else \
+        'the identical call repeated 16 times (other allocations in between) does not return identical bits'
+    reg('get_bf_vector[pca+ban, zero bins, F=64]', lambda args: bw.get_bf_vector('pca+ban', args[0], args[1]),
+        np.stack([A.hpd(seed, D, 10.0, 'c20x64', f) for f in range(64)]), Pnn64)
     y2 = A.cnormal(r, (F, T, 2))
     reg('ComplexWatsonTrainer.fit[D=2]', lambda args: d.ComplexWatsonTrainer().fit(args[0]), y2)
     reg('ComplexWatsonTrainer.fit[max 50]', lambda args: d.ComplexWatsonTrainer(max_concentration=50).fit(args[0]),
@@ -366,6 +407,10 @@ def run_purity(key):
             if not (a.shape == s.shape and a.tobytes() == s.tobytes()):
                 return viol(f'{name} modified its argument #{i} ({layout} layout, shape {s.shape})')
         results.append(_digest(res))
+        if name in table.expect:
+            msg = table.expect[name](res)
+            if msg:
+                return viol(f'{name}: {msg}')
         if state is not None and _digest(state) != state0:
             return viol(f'{name}: the call changed the parameters stored in the model object')
     if results[0] != results[1]:
@@ -461,6 +506,11 @@ def run_sequence(key):
                 bad = tol.mismatch(a, b, 1e-9, what=f'{name} after {other} vs pristine process: {k_}')
                 if bad:
                     return viol(bad)
+                # exact zeros are exact zeros in every history (left-over memory in an un-initialised buffer is
+                # typically a denormal: invisible to any tolerance, but not reproducible)
+                if not np.array_equal(a == 0, b == 0):
+                    return viol(f'{name} after {other}: {k_} has exact zeros at other positions than in the pristine '
+                                f'process ({int((a == 0).sum())} vs {int((b == 0).sum())} zeros)')
             elif not np.array_equal(a, b):
                 return viol(f'{name} after {other}: {k_} differs from the pristine process')
         n += 1
